@@ -25,6 +25,34 @@ impl Scalar for Weak {
     }
 }
 
+/// A value whose equality and hash look at `a` only (the payload `b` is ignored).
+#[repr(C)]
+#[derive(Clone, Copy, Default)]
+pub struct HPair {
+    pub a: u32,
+    pub b: u32,
+}
+unsafe impl bytemuck::Zeroable for HPair {}
+unsafe impl bytemuck::Pod for HPair {}
+impl PartialEq for HPair {
+    fn eq(&self, o: &Self) -> bool {
+        self.a == o.a
+    }
+}
+impl Hash for HPair {
+    fn hash<H: Hasher>(&self, state: &mut H) {
+        state.write_u32(self.a);
+    }
+}
+impl Scalar for HPair {
+    fn from_i(x: i128) -> Self {
+        HPair { a: x as u32, b: (x >> 32) as u32 }
+    }
+    fn to_i(self) -> i128 {
+        (self.a as i128) | ((self.b as i128) << 32)
+    }
+}
+
 pub fn run_t<V: Scalar + Hash + PartialEq>(case: &Case, full: bool, fill: u8, out: &mut String) {
     let toks: Vec<&str> = case.header.iter().map(|s| s.as_str()).collect();
     let mode = kv(&toks, "mode").unwrap_or("persistent".into());
@@ -195,6 +223,7 @@ pub fn run(case: &Case, full: bool, fill: u8, out: &mut String) {
         "u64" => run_t::<u64>(case, full, fill, out),
         "u32" => run_t::<u32>(case, full, fill, out),
         "u8" => run_t::<u8>(case, full, fill, out),
+        "hpair" => run_t::<HPair>(case, full, fill, out),
         other => panic!("unknown vty {}", other),
     }
 }
